@@ -199,6 +199,7 @@ def run_case(script):
   if script.get('level') == 'multi':
     return run_case_multi(script)
   loop = common.boot()
+  common.cpu_watchdog(30)
   import gevent
   from harness.simgevent import simnet, peers
   from harness.simgevent.vloop import EPOCH
@@ -512,6 +513,7 @@ def run_case_multi(script):
   Thrift / ThriftMux client; traffic comes in bursts of n + 1 concurrent calls, so a least-loaded balancer
   must use every endpoint that is up.  The trace is the projection on one (focus) endpoint."""
   loop = common.boot()
+  common.cpu_watchdog(30)
   import gevent
   from harness.simgevent import simnet, peers
   from harness.simgevent.vloop import EPOCH
@@ -737,6 +739,7 @@ def _replay_resurrector(beh):
   Resurrector.tla; W = <<2,3,5>> corresponds to initial 2 s, exponent log2(3), max 5 s."""
   import math
   loop = common.boot()
+  common.cpu_watchdog(30)
   import gevent
   from scales.asynchronous import AsyncResult
   from scales.constants import ChannelState, SinkProperties
